@@ -159,7 +159,7 @@ func (r *runner) execOp(op *Op, phase string) {
 		r.w.mu.Lock()
 		r.results = append(r.results, res)
 		r.byID[op.ID] = res
-		r.doneLines = append(r.doneLines, fmt.Sprintf("done %s %s %s -> %s %d %s", op.ID, cp.Method, maskID(cp.Path, r.worker.vars["pipeline"]), res.Out.Class, res.Out.Status, res.Out.Code))
+		r.doneLines = append(r.doneLines, fmt.Sprintf("done %s %s %s -> %s %d %s", op.ID, cp.Method, op.Raw.Path, res.Out.Class, res.Out.Status, res.Out.Code))
 		r.w.mu.Unlock()
 		return
 	}
